@@ -334,13 +334,21 @@ def validate_assembly_concrete(check, terms=None, option_sets=None):
             return run
 
         def on_path(st, it, out):
+            # several paths arise only when the crate's Data holds a field this machinery cannot read from the bundled files
+            # (then it is unconstrained): the native answer must be among the executor's answers
             if out[0] == "panic":
+                got.setdefault("all", []).append(("panic", out[1].message))
                 got["panic"] = out[1].message
                 return []
             lst, s = out[1]
             m = st.get_model()
-            got["list"] = [rank_json(prog, m, x) for x in lst.items]
-            got["sel"] = int(model_value(m, s))
+            cur = ([rank_json(prog, m, x) for x in lst.items], int(model_value(m, s)))
+            got.setdefault("all", []).append(cur)
+            norm = [[k, text, n if k != "First" else 0] for k, text, n in cur[0]]
+            if "list" not in got or (norm == native_list and cur[1] == native_sel):
+                got["list"], got["sel"] = cur
+                if norm == native_list and cur[1] == native_sel:
+                    got.pop("panic", None)
             return []
         ex.explore(build, on_path)
         done += 1
@@ -348,7 +356,9 @@ def validate_assembly_concrete(check, terms=None, option_sets=None):
             mismatches.append((t, o, "executor: " + ex.errors[0][:300]))
             continue
         mine = [[k, text, n if k != "First" else 0] for k, text, n in got.get("list", [])]
-        if got.get("panic") or mine != native_list or got.get("sel") != native_sel:
+        matched = any(e[0] != "panic" and [[k, text, n if k != "First" else 0] for k, text, n in e[0]] == native_list and e[1] == native_sel
+                      for e in got.get("all", []))
+        if not matched:
             mismatches.append((t, o, "native %s sel %s | executor %s sel %s %s" % (json.dumps(native_list, ensure_ascii=False)[:400], native_sel,
                                                                                    json.dumps(mine, ensure_ascii=False)[:400], got.get("sel"), got.get("panic", ""))))
         for fnm, h in ex.stats.functions.items():
@@ -557,6 +567,12 @@ def learn_roundtrip(it, st, ctx, first):
     st.assume(z3.ULT(idx, len(lst.items)))
     st.assume(idx != bv(s, 64))
     st.require_feasible()
+    # a choice learned earlier for a longer word (key = this word + one more letter): a commit for this word must leave it alone
+    if ctx.get("word") is not None and len(ctx["word"]) > 0 and not ctx["shape"].get("no_extra_entry"):
+        ek = list(ctx["word"]) + [st.sym_char("extra_key", 0x61, 0x7a)]
+        ev = [st.sym_char("extra_val%d" % i, BENGALI_LO, 0x09DF) for i in range(2)]
+        ctx["selections"].entries.append([tuple(ek), SString(ev)])
+        ctx["extra_entry"] = (ek, ev)
     pm = mk_phonetic_method(prog, ctx["term"], ctx["ps"], ctx["selections"], s)
     ov = dict(it.env["overrides"])
     g = glue_overrides(st, ctx, 1)
@@ -711,6 +727,28 @@ def suggest_clauses(st, it, c, res, mode):
                     complete.append(z3.Implies(z3.And(z3.Not(silent), cond), present))
                 clauses.append(("cover:suffix_join", z3.Not(silent)))
         clauses.append(("suffix_forms_complete", z3.And(complete) if complete else True))
+    # ---- C05/C08: the memo entry written for the word holds its direct candidates only (what the suffix joining of longer words relies on)
+    if word is not None and len(word) > 0 and mode == "single":
+        ent = None
+        for k, v2 in c["cache"].entries:
+            if len(k) == len(word) and all((a is b2) or (not is_sym(a) and not is_sym(b2) and a == b2) for a, b2 in zip(k, word)):
+                ent = v2
+        planted = any(len(k) == len(word) and all(a is b2 for a, b2 in zip(k, word)) for k, _ in c["cache0"].entries)
+        if ent is not None and not planted:
+            dk2 = orc.memo.get(("dict", key_of_elems(word)), [])
+            uk2 = orc.memo.get(("user_autocorrect", key_of_elems(word)))
+            bk2 = orc.memo.get(("autocorrect", key_of_elems(word)))
+            en2 = uk2 if uk2 is not None else bk2
+            want = []
+            if en2 is not None:
+                ce2 = orc.memo.get(("conv", key_of_elems(en2)))
+                want.append(list(ce2) if ce2 is not None else None)
+            want += [list(w2) for w2, d2 in dk2]
+            got = [rank_text(x) for x in ent.items]
+            if None in want or len(got) != len(want):
+                clauses.append(("memo_entry_holds_direct_candidates_only", z3.BoolVal(None not in want and len(got) == len(want))))
+            else:
+                clauses.append(("memo_entry_holds_direct_candidates_only", z3.And([seq_eq(a, b2) for a, b2 in zip(got, want)]) if got else True))
     # ---- C09 learn round trip
     if mode == "learn":
         idx = res["commit_index"]
@@ -724,6 +762,10 @@ def suggest_clauses(st, it, c, res, mode):
             alts.append(z3.Implies(idx == i, ok_i))
         silent_learn = z3.BoolVal(False)
         clauses.append(("learned_choice_is_preselected_next_time", z3.And(alts)))
+        if c.get("extra_entry"):
+            ek, ev = c["extra_entry"]
+            kept = [z3.And(seq_eq(list(k), ek), seq_eq(v2.elems, ev)) for k, v2 in c["selections"].entries if len(k) == len(ek) and len(v2.elems) == len(ev)]
+            clauses.append(("other_learned_entries_survive_a_commit", z3.Or(kept) if kept else False))
         clauses.append(("cover:learn", True))
     # ---- C17 / C05 pairing
     if mode in ("quote_pair", "warm_pair"):
@@ -990,6 +1032,8 @@ def obl_order(check, conv_table, thorough=False, budget_s=None):
     shapes = base_shapes([("", "")], [1], conv_table, **dict(kw, fixed={"smart_quote": False}))
     shapes += base_shapes([("\"", "\"")] + ([("(", ")"), ("", ".")] if thorough else []), [1], conv_table, **kw)
     shapes += special_term_shapes(SPECIAL_TERMS[:6] if not thorough else SPECIAL_TERMS, **dict(kw, dict_max=1, selections=False))
+    shapes += base_shapes([("", "")], [3], conv_table, **dict(kw, suffixes=True, prefix_kind="First", dict_max=0, emoji_names=False, emoticons=False, selections=False,
+                                                           distinct=True, fixed={"smart_quote": False, "ansi": False, "include_english": False}))
     check.bounds["assembly_order"] = dict(word="1 symbolic letter/digit (no suffix split points)", wrappers=[s["pre"] + "W" + s["trail"] for s in shapes],
                                           data="user/bundled auto-correct present or absent, 0-2 dictionary words with symbolic distances, emoticon / emoji name present or absent, learned selection any",
                                           options="English, ANSI, smart quotes symbolic")
@@ -1101,6 +1145,8 @@ def translit_search(vs):
     words = ["ah", "kt", "ami", "a"]
     runs = ["", ",", ",,", ".", "..", "...", "!", "?", "(", ")", "\"", "-", ";", ",,,", ".,", "()"]
     texts = [p + w + t for w in words for p in runs[:8] for t in runs]
+    texts += [t for t in SPECIAL_TERMS + [":`)", "(:`)", ":`:`", "a:`", "`", "``", ":`", ".", "..", ",,", ";)", "()"] if all(ch in keys for ch in t)]
+    texts = list(dict.fromkeys(texts))
     scs = []
     for t in texts:
         cfg = {"layout": "avro_phonetic", "database": REPO + "/data", "opts": {"phonetic_suggestion": True, "smart_quote": False}}
